@@ -196,6 +196,22 @@ def reassembly(chk, program):
         chk.check(bool(info and info['truncated_by'] == 'payload_length'), 'RA-TRUNC', 'payload-bounded-by-announced-length', file=DEC, line=fn.lineno, func='_decode_fast_message',
                   expected='the payload handed to the decoder is cut to the announced length (a slice bound that depends on payload_length)', found=show(d)[:200] if d else None,
                   detail='' if info and info['truncated_by'] else 'padding bytes beyond the announced length become part of the payload: the same message padded with FF or 00 decodes differently')
+    # ---- RA-COUNT: what is counted is what was stored
+    cnt = [e for e in ex.events if e[0] == 'store' and e[2][0] == 'attr' and e[2][2] == 'bytes_stored' and not sym.is_const(e[3])]
+    fst = [e for e in ex.events if e[0] == 'store' and e[2][0] == 'sub' and e[2][1][0] == 'attr' and e[2][1][2] == 'frames']
+    okc = False
+    found = [show(e[3])[:120] for e in cnt]
+    if len(cnt) == 1 and len(fst) == 1:
+        v = cnt[0][3]
+        stored = fst[0][3]
+        want_len = ('call', ('name', 'len'), (stored,), ())
+        if v[0] == 'binop' and v[1] == '+':
+            for a, b in ((v[2], v[3]), (v[3], v[2])):
+                if a[0] == 'attr' and a[2] == 'bytes_stored' and b == want_len:
+                    okc = True
+    chk.check(okc, 'RA-COUNT', 'bytes-counted-are-bytes-stored', file=DEC, line=cnt[0][-1] if cnt else fn.lineno, func='_decode_fast_message',
+              expected='bytes_stored += len(<exactly the bytes stored for this frame>)', found=found,
+              detail='' if okc else 'counting header bytes makes completion fire early: payloads of particular lengths are delivered short and their last frame is dropped')
     # ---- RA-SAFE
     pdata = 'can_data' if 'can_data' in params else None
     risky = [n for n in g.nodes if n.kind in ('stmt', 'test') and any(isinstance(x, ast.Subscript) and isinstance(x.value, ast.Name) and x.value.id == pdata and isinstance(x.ctx, ast.Load)
@@ -362,6 +378,26 @@ def map_rules(chk, program):
         want = [('param', ex2.params[i]) for i in (3, 4, 2, 5)]     # src, dest, priority, timestamp
         chk.check(list(a[:4]) == want, 'MAP-ATTACH', 'add_data::addressing', file=DEC, line=adds[0][-1], func='_call_decode_function',
                   expected='add_data(src, dest, priority, timestamp, ...)', found=[show(x) for x in a[:4]])
+    # table: which identity is attached to the claim message itself, per state of the map
+    if adds:
+        sf = F.split_facts(program); cf = F.ctor_facts(program)
+        attrs = F.runtime_attrs(program, sf, cf, consts, [], [])
+        ident_term = adds[0][2][2][4] if len(adds[0][2][2]) > 4 else None
+        for old_name, tag in ((None, 'no-entry'), (12345, 'same-NAME'), (999, 'other-NAME')):
+            iso = None if old_name is None else F.Stub(name=old_name, manufacturer_code=None)
+            model, msg = F.make_model(attrs, consts, consts['ISO_CLAIM_PGN'], consts['ISO_CLAIM_PGN_ID'], iso=iso)
+            try:
+                res = F.outcome(program, stages, model)
+                got = teval.ev(ident_term, model) if ident_term is not None else None
+            except teval.EvalUnknown as u:
+                chk.unknown('MAP-REPLACE', f"claim::{tag}", f"not evaluable: {u}", DEC, fn2.lineno)
+                continue
+            want_store = old_name != 12345
+            is_new = isinstance(got, F.Stub) and got.attrs.get('new') is True
+            chk.check(res[3] is want_store and (is_new if want_store else got is iso), 'MAP-REPLACE', f"claim::{tag}", file=DEC, line=fn2.lineno, func='_call_decode_function',
+                      expected=('new identity stored under the source and attached' if want_store else 'stored identity reused (same 64-bit NAME)'),
+                      found={'stored': res[3], 'attached': 'new' if is_new else ('stored one' if got is iso and iso is not None else repr(got))},
+                      detail='the stand-in claim carries NAME 12345; the map holds ' + ('nothing' if old_name is None else f"NAME {old_name}"))
     # add_data stores the identity
     ad = program.fn('message', 'NMEA2000Message.add_data')
     adp = [x.arg for x in ad.args.args]
